@@ -1,18 +1,35 @@
 (** C01 - well-formed encodings decode to exactly the field-by-field event sequence.
     The specification of "the interpretation the TPM 2.0 layout tables dictate" is Spec/Value.v + Spec/Message.v
     ([spec_events]); it is evaluated at the PINNED tables, and C20_pinned bridges to the regenerated ones.
-    PROVED so far: the statement for the primitive root types (all of them, all widths, all inputs).
-    NOT YET PROVED: the same statement for structures, TPM2B, unions, commands, responses, streams - for these
-    the property is decided by the oracle (implementation vs extracted [spec_events] on generated well-formed
-    encodings of every type / command code / union arm) and the model correspondence; see DESIGN.md.
+    PROVED: the statement for EVERY structure type - primitives, structures, TPM2B (list and structured,
+    empty payloads), unions, counted lists, parameter areas with an opaque first parameter - for all tables, all
+    type descriptors, all inputs, by a simulation between the constraint-tracking coroutine decoder and the
+    specification's plain reading (Proofs/Sim1-5.v).
+    NOT YET PROVED: the same statement for the Command / Response / stream roots - for these the property is
+    decided by the oracle (implementation vs extracted [spec_events] on generated well-formed messages of every
+    command code, 0-3 sessions, encrypted first parameter, failed responses) and the model correspondence.
     Statement file: theorem statements, [exact], Print Assumptions only. *)
 From Coq Require Import ZArith List String Bool.
 From TV Require Import Layout.Types gen.Tables gen.Pinned Base.Bytes Model.Monad Model.Ints Model.Message Model.Pump
-  Spec.Value Spec.Message Proofs.OpLemmas.
+  Spec.Value Spec.Message Proofs.OpLemmas Proofs.Sim5 Properties.C20.
 Import ListNotations.
 Open Scope Z_scope.
 
-(** partial: primitive roots *)
+(** every structure type (any type descriptor [t], any tables [T]): if the specification reads the whole input as
+    a value of [t] whose leaves are all in range, strict decoding emits exactly the specified events - path,
+    declared type, value, in wire order, each with at most one byte of look-ahead - and accepts *)
+Theorem C01_structure_types :
+  forall T t bs evs, spec_events T (RType t) bs = Some evs -> decode T true (RType t) bs = (evs, OAccepted).
+Proof. exact types_decode_as_specified. Qed.
+Print Assumptions C01_structure_types.
+
+(** the same with the specification at the PINNED layout and the decoder at the tables regenerated from /repo *)
+Theorem C01_structure_types_pinned :
+  forall t bs evs, spec_events Pinned.T (RType t) bs = Some evs -> decode Tables.T true (RType t) bs = (evs, OAccepted).
+Proof. rewrite C20_pinned. exact (types_decode_as_specified Pinned.T). Qed.
+Print Assumptions C01_structure_types_pinned.
+
+(** (earlier, now subsumed) primitive roots *)
 Theorem C01_primitive_types_partial :
   forall T p bs, 0 < pwidth p -> List.length bs = Z.to_nat (pwidth p) -> valid p (from_bytes (psigned p) bs) = true ->
     exists evs, decode T true (RType (TPrim p)) bs = (evs, OAccepted) /\ spec_events T (RType (TPrim p)) bs = Some evs.
